@@ -6,6 +6,7 @@
 #include <semaphore.h>
 #include <string.h>
 #include <unordered_map>
+#include <unordered_set>
 
 namespace xs {
 
@@ -24,6 +25,7 @@ struct Task {
   std::vector<Directive> dirs;
   size_t next_dir = 0;
   int prio = 0;
+  uint64_t run_since_switch = 0;
   std::function<void()>* body = nullptr;
 };
 
@@ -35,6 +37,12 @@ static Rng g_srng(1);
 static uint64_t g_sched_events = 0;
 static std::vector<uint64_t> g_pct_points;
 static size_t g_pct_next = 0;
+static int g_pct_fair = 0;
+// atomic operations (hooks called from the macros of sim/xs_atomics.h, force-included into the library)
+struct SyncObj { uint32_t vc[MAXTASK] = {0}; };
+static std::unordered_map<uintptr_t, SyncObj> g_sync;
+static SyncObj g_fence_sync;
+uint64_t g_atomic_ops = 0;
 
 int current_task() { return g_cur; }
 
@@ -71,8 +79,11 @@ static void report_race(uintptr_t addr, int t1, bool w1, uint32_t pc1, int t2, b
             w2 ? "write" : "read", t2, s2.c_str(), where.c_str());
 }
 
+static std::unordered_set<uintptr_t> g_atomic_granules;   // locations accessed by atomic operations (never a data race themselves)
+
 static void race_check(uintptr_t a, size_t n, bool write, uintptr_t pc, const char* what) {
   if (g_cur < 0 || !n) return;
+  if (n <= 8 && !g_atomic_granules.empty() && g_atomic_granules.count(a >> 3)) return;
   Task& t = *T[g_cur];
   uint32_t pco = (uint32_t)(pc - exe_base());
   uintptr_t g0 = a >> 3, g1 = (a + n - 1) >> 3;
@@ -119,6 +130,7 @@ static void switch_to(int to, const char* reason) {
   SH->switches++;
   logf("S t%d@%llu -> t%d %s", me->id, (unsigned long long)me->ctx.events, to, reason);
   g_cur = to;
+  nx->run_since_switch = 0;
   sem_post(&nx->sem);
   sem_wait(&me->sem);
   publish_ctx(&me->ctx);
@@ -142,6 +154,24 @@ static void maybe_yield(bool visible) {
   Task& t = *T[g_cur];
   if (t_task != &t.ctx) return;  // not a task thread (controller)
   int to = -1;
+  // Fairness rule (all policies, deterministic): a task that has run 200 000 events in one stretch while others
+  // are runnable is pre-empted.  Without it a task spinning on a lock-free flag (a user-level spinlock, a "wait
+  // until initialised" loop) whose holder was pre-empted would spin until the event budget and be reported as
+  // no-progress, which no real scheduler would let happen.
+  if (++t.run_since_switch > 200000 && g_cfg.policy != SP_PCT) {
+    int nx = -1;
+    for (size_t k = 1; k <= T.size(); k++) {
+      Task* u = T[(t.id + k) % T.size()];
+      if (u->id != t.id && runnable(u)) { nx = u->id; break; }
+    }
+    t.run_since_switch = 0;
+    if (nx >= 0) {
+      SH->preemptions++;
+      record_dir(t.id, t.ctx.events, nx);
+      switch_to(nx, "fairness");
+      return;
+    }
+  }
   switch (g_cfg.policy) {
     case SP_EXPLICIT:
       while (t.next_dir < t.dirs.size() && t.ctx.events >= t.dirs[t.next_dir].at_event) {
@@ -161,6 +191,10 @@ static void maybe_yield(bool visible) {
       while (g_pct_next < g_pct_points.size() && g_sched_events >= g_pct_points[g_pct_next]) {
         t.prio = -(int)(g_pct_next + 1);
         g_pct_next++;
+      }
+      if (t.run_since_switch > 200000) {   // see the fairness rule below
+        t.prio = -(int)(1000 + g_pct_fair++);
+        t.run_since_switch = 0;
       }
       int best = t.id, bp = t.prio;
       for (Task* u : T)
@@ -227,9 +261,13 @@ void run_tasks(const SchedCfg& cfg, std::vector<std::function<void()>>& bodies) 
   g_cfg = cfg;
   g_srng.reseed(cfg.seed ^ 0x5ced5ced5cedULL);
   g_shadow.clear();
+  g_sync.clear();
+  g_atomic_granules.clear();
+  g_fence_sync = SyncObj();
   g_sched_events = 0;
   g_pct_points.clear();
   g_pct_next = 0;
+  g_pct_fair = 0;
   for (Task* t : T) delete t;
   T.clear();
   sem_init(&g_ctrl, 0, 0);
@@ -378,6 +416,27 @@ static void wake(uintptr_t on) {
 
 using namespace xs;
 extern "C" {
+// memory orders: relaxed 0, consume 1, acquire 2, release 3, acq_rel 4, seq_cst 5
+void xs_atomic_pre(const volatile void* addr, int kind, int mo) {
+  g_atomic_ops++;
+  sched_visible("atomic");
+  if (!g_threads_mode) return;
+  uintptr_t a = (uintptr_t)addr;
+  if (a) g_atomic_granules.insert(a >> 3);
+  bool rel = mo == 3 || mo == 4 || mo == 5;
+  if (kind == 4) { if (rel) vc_release(g_fence_sync.vc); return; }
+  if ((kind == 2 || kind == 3) && rel) vc_release(g_sync[a].vc);
+}
+void xs_atomic_post(const volatile void* addr, int kind, int mo) {
+  if (!g_threads_mode) return;
+  uintptr_t a = (uintptr_t)addr;
+  bool acq = mo == 1 || mo == 2 || mo == 4 || mo == 5;
+  if (kind == 4) { if (acq) vc_acquire(g_fence_sync.vc); return; }
+  if ((kind == 1 || kind == 3) && acq) {
+    auto it = g_sync.find(a);
+    if (it != g_sync.end()) vc_acquire(it->second.vc);
+  }
+}
 int xs_pthread_mutex_init(pthread_mutex_t* m, const pthread_mutexattr_t*) { g_mx[(uintptr_t)m] = Mx(); return 0; }
 int xs_pthread_mutex_destroy(pthread_mutex_t* m) { g_mx.erase((uintptr_t)m); return 0; }
 int xs_pthread_mutex_lock(pthread_mutex_t* m) {
